@@ -177,6 +177,10 @@ def _blocks(tier):
     for v in (b"chunked", b"Chunked", b"CHUNKED", b"gzip, chunked", b"chunked, gzip", b"xchunked", b"chunkedx", b"chunked;q=1", b"\x0bchunked", b"chunked\n", b"identity", b"Identity",
               b"gzip", b"", b"identity, chunked", b"deflate", b"chunked,chunked"):
         out.append(("transfer-coding", [rl] + host + [b"Transfer-Encoding: " + v]))
+    # RFC 9110 8.6: a recipient must anticipate very large decimal numerals and prevent parsing errors due to integer conversion: such a
+    # length may be refused (400) or accepted, but it must not make an exception escape the channel
+    for digits in (4300, 4301, 5000):
+        out.append(("content-length-huge", [rl] + host + [b"Content-Length: " + b"1" * digits]))
     cl3, cl4, te = b"Content-Length: 3", b"Content-Length: 4", b"Transfer-Encoding: chunked"
     for combo in ([cl3, cl3], [cl3, cl4], [cl3, te], [te, cl3], [te, te], [b"Transfer-Encoding: identity", cl3], [cl3, b"Transfer-Encoding: identity"], [te, b"Transfer-Encoding: identity"],
                   [b"Transfer-Encoding: gzip", te], [cl3, b"X-A: 1", cl3], [cl3, b"X-A: 1", te]):
@@ -263,11 +267,14 @@ def _framing(ctx, H):
         n = 0
         for lines in blocks:
             unfolded, lone = _unfold(lines)
-            want = _ref_block(unfolded)
-            alt_reject = bool(lone)            # RFC 9112 2.2: reject the message, or consume the lone whitespace-preceded lines without processing them
+            huge = fam == "content-length-huge"
+            want = None if huge else _ref_block(unfolded)
+            alt_reject = bool(lone) or huge    # RFC 9112 2.2: reject the message, or consume the lone whitespace-preceded lines without processing them
             block = b"\r\n".join(lines) + b"\r\n\r\n"
             if fam == "malformed-chunked-body":
                 want, (wire_body, body) = None, (bytes.fromhex(lines[-1].split(b": ")[1].decode()), b"")
+            elif huge:
+                wire_body, body = b"", b""
             elif want:
                 wire_body, body = _body_for(want[4])
             else:
@@ -306,6 +313,8 @@ def _framing(ctx, H):
                 seen, wire, closed, esc, counts = o.value
                 if alt_reject and seen == [] and wire == BAD_REQUEST and closed and esc is None:
                     continue
+                if huge and seen == [] and wire == b"" and esc is None and not closed:
+                    continue                    # accepted: the channel waits for a body of that length
                 if want is None:
                     ok = seen == [] and wire == BAD_REQUEST and closed and esc is None
                     exp = "400 Bad Request, connection closed, nothing handed to the application"
